@@ -15,7 +15,7 @@ META = dict(
          "the variant whose step function reads the environment); the harness replays the same JSON workload (configuration, vault/locker/lend/"
          "liquidity/rewards/auction messages, price moves, V2 liquidations, Dutch and English bids, epochs, swap-fee conversion at height 150, seeded "
          "random tail) with real blocks (BeginBlock/router/EndBlock/Commit) on independent instances and processes; every replica logs one digest per "
-         "module store (+bank) and (ok, code, response hash, gas) per message after every block; TLC compares every replica with the reference at "
+         "module store (+bank), (ok, code, response hash, gas) per message and an order-sensitive digest of the events of every message and of Begin/EndBlock after every block; TLC compares every replica with the reference at "
          "every height. Sampled over seeds, exhaustive over the bounded interleavings.",
     note="Trusted: TLC/Json module, SHA-256 store dumps via the app's store keys, Go's per-process map randomisation as the source of "
          "iteration-order variation (a nondeterministic map range shows up with probability 1-2^-k over k replicas/blocks, not with certainty). "
@@ -25,7 +25,8 @@ META = dict(
 
 NEED_TAGS = ["liquidity.limit", "liquidity.market", "liquidity.mm", "liquidity.depositfarm", "rewards.gauge", "vault.create", "locker.create",
              "lend.borrow", "aucv2.bid.dutch", "aucv2.bid.english", "aucv2.limitbid", "liqv2.internal", "rewards.extlocker"]
-NEED_COVER = dict(gaugesDistributed=1, maxActiveFarmersInAPool=3, pairsMatched=2, feeConversions=1, lockedVaultsV2=2, bidsV2=3, swapFeeGaugeTriggers=1)
+NEED_COVER = dict(gaugesDistributed=1, maxActiveFarmersInAPool=3, pairsMatched=2, feeConversions=1, lockedVaultsV2=2, bidsV2=3, swapFeeGaugeTriggers=1,
+                  cancelAllMultiPair=5, multiPoolBatches=8, events=1000)
 
 
 def time_now_uses():
